@@ -503,7 +503,7 @@ class Interp:
             raise Abort("raise")
         elif isinstance(st, ast.With):
             self.exec_block(st.body, env)
-        elif isinstance(st, (ast.Import, ast.ImportFrom, ast.Global)):
+        elif isinstance(st, (ast.Import, ast.ImportFrom, ast.Global, ast.Nonlocal)):
             return
         elif isinstance(st, ast.FunctionDef):
             env[st.name] = FuncRef(st)
